@@ -21,7 +21,7 @@ import (
 )
 
 var handlerFuncs = map[string]bool{"HandleXmlReader": true, "HandleXmlReaderRaw": true, "HandleJsonReader": true, "HandleJsonReaderRaw": true,
-	"NewMapsFromJsonFile": true, "NewMapsFromXmlFile": true}
+	"NewMapsFromJsonFile": true, "NewMapsFromXmlFile": true, "NewMapsFromJsonFileRaw": true, "NewMapsFromXmlFileRaw": true}
 
 // handlerCall: ok := h(a1, ..., an) with h a handler parameter.  done = it was handled here.
 func (t *fnTr) handlerCall(x *ast.AssignStmt, c *ast.CallExpr, next func() string) (string, bool) {
